@@ -22,7 +22,7 @@ from .fithist import equalish, read_obs
 PROP = "C19"
 nx = importlib.import_module("kafe2.core.fitters.nexus")
 
-HOSTS = ("fit", "cont", "fit", "hist", "nexus", "fit", "cont", "fit")
+HOSTS = ("fit", "cont", "fit", "hist", "nexus", "multi", "cont", "fit")
 FIT_READS = ("cost_function_value", "total_error", "total_cov_mat", "model", "data", "ndf", "parameter_values", "data_error", "goodness_of_fit", "result_dict")
 
 
@@ -154,6 +154,8 @@ class RejectMachine(Machine):
             ops = self._gen_cont(rng, sw, nbase)
         elif host == "hist":
             ops = self._gen_hist(rng, sw, nbase)
+        elif host == "multi":
+            ops = self._gen_multi(rng, sw, min(nbase, 8))
         else:
             ops = self._gen_nexus(rng, sw, nbase)
         knobs = {"host": host, "enumerate": enumerate_, "order": sw.choice(["shuffle", "insertion"])}
@@ -235,6 +237,42 @@ class RejectMachine(Machine):
             ops.append(["read", "cov", 1])
         return ops
 
+    def _gen_multi(self, rng, sw, n):
+        """A MultiFit of two Gaussian members (xy / indexed) and valid operations issued on it."""
+        from .multi import _member_spec
+
+        members = [_member_spec(rng, rng.choice(["xy", "indexed"])) for _ in range(2)]
+        ops = [["new", {"type": "multi", "members": members}]]
+        for i, sp in enumerate(members):
+            ops.append(["add_error", {"fits": i, "axis": "y" if sp["type"] == "xy" else None, "err": rng.choice([0.2, 0.3, 0.5]), "corr": rng.choice([0.0, 0.3]), "name": "b%d" % i}])
+        allnames = []
+        for sp in members:
+            for nm in fitlib.par_names(sp):
+                if nm not in allnames:
+                    allnames.append(nm)
+        same_size = fitlib.size_of(members[0]) == fitlib.size_of(members[1])
+        nsh = 0
+        for _ in range(n):
+            r = rng.random()
+            nm = rng.choice(allnames)
+            if r < 0.2:
+                ops.append(["set", {nm: round(1.0 + rng.random(), 3)}])
+            elif r < 0.3:
+                ops.append(["fix", [nm, None if rng.random() < 0.5 else round(1.0 + rng.random(), 3)]])
+            elif r < 0.36:
+                ops.append(["release", nm])
+            elif r < 0.46 and same_size and nsh < 2:
+                ops.append(["add_shared", {"err": rng.choice([0.1, 0.2]), "corr": rng.choice([0.0, 0.5]), "name": "sh%d" % nsh}])
+                nsh += 1
+            elif r < 0.54:
+                ops.append(["constraint", {"par": nm, "value": round(1.0 + rng.random(), 3), "unc": rng.choice([0.2, 0.5])}])
+            else:
+                ops.append(["read", rng.choice(["cost", "ndf", "pvals", "member_cost", "member_pvals", "gof"]), rng.randrange(2)])
+        ops.append(["read", "cost", 0])
+        ops.append(["read", "ndf", 0])
+        ops.append(["read", "member_cost", 1])
+        return ops
+
     def _gen_hist(self, rng, sw, n):
         nb = rng.randint(1, 5)
         edges = [float(i) for i in range(nb + 1)]
@@ -312,6 +350,33 @@ class RejectMachine(Machine):
             out.append(("R6", {"call": "get_error", "name": "nope"}))
             if xy:
                 out.append(("R6", {"call": "add_error", "axis": "z", "err": 0.1}))
+            return out
+        if host == "multi":
+            ms = new["members"]
+            names = []
+            for sp in ms:
+                for nm in fitlib.par_names(sp):
+                    if nm not in names:
+                        names.append(nm)
+            n0, n1 = fitlib.size_of(ms[0]), fitlib.size_of(ms[1])
+            ax0 = "y" if ms[0]["type"] == "xy" else None
+            out = [("R6", {"call": "set", "name": "zzz"}), ("R6", {"call": "set_multi", "name": "zzz", "valid": names[0]}), ("R6", {"call": "set_multi", "name": "zzz", "valid": names[-1]}),
+                   ("R6", {"call": "fix", "name": "zzz"}), ("R6", {"call": "fix_value", "name": "zzz"}), ("R6", {"call": "limit", "name": "zzz"}),
+                   ("R6", {"call": "constraint", "name": "zzz"}), ("R6", {"call": "disable_error", "name": "no_such_source"}),
+                   ("R1", {"call": "set_all", "n": len(names) + 1}),
+                   ("R1", {"call": "add_error", "fits": 0, "axis": ax0, "err": [0.1] * (n0 + 1)}),
+                   ("R1", {"call": "add_error", "fits": [0, 1], "axis": "y", "err": [0.1] * (n0 + 2)}),
+                   ("R2", {"call": "add_error", "fits": 0, "axis": ax0, "err": -0.2}),
+                   ("R2", {"call": "add_error", "fits": [0, 1], "axis": "y", "err": [0.1] * (n0 - 1) + [-0.1]}),
+                   ("R3", {"call": "add_error", "fits": [0, 1], "axis": "y", "err": 0.1, "corr": 1.5}),
+                   ("R3", {"call": "add_error", "fits": 0, "axis": ax0, "err": 0.1, "corr": -0.2}),
+                   ("R1", {"call": "add_matrix_error", "fits": 0, "axis": ax0, "mat": (np.eye(n0 + 1) * 0.04).tolist()}),
+                   ("R1", {"call": "add_matrix_error", "fits": [0, 1], "axis": "y", "mat": (np.eye(n0 + 1) * 0.04).tolist()}),
+                   ("R6", {"call": "add_error", "fits": 7, "axis": ax0, "err": 0.1})]
+            if n0 != n1:
+                out.append(("R1", {"call": "add_error", "fits": [0, 1], "axis": "y", "err": 0.1}))  # members of different size cannot share a source
+            if any(sp["type"] == "indexed" for sp in ms):
+                out.append(("R6", {"call": "add_error", "fits": [0, 1], "axis": "x", "err": 0.1}))  # no x axis in an indexed member
             return out
         if host == "hist":
             nb = len(new["edges"]) - 1
@@ -403,6 +468,8 @@ class RejectMachine(Machine):
             return self.run_fit(ops, world, res, log)
         if host == "nexus":
             return self.run_nexus(ops, world, res, log)
+        if host == "multi":
+            return self.run_multi(ops, world, res, log)
         return self.run_cont(host, ops, world, res, log)
 
     def reject(self, res, kind, f, call, step):
@@ -418,6 +485,121 @@ class RejectMachine(Machine):
             res.bump("fault_F1_fired")
             return True
         raise Violation(PROP, "raises", "%s:%s" % (kind, f.get("call")), "malformed specification accepted without an exception: %s %s" % (kind, _short(f)), step=step)
+
+    # -- multi-fit host
+    def run_multi(self, ops, world, res, log):
+        K = fitlib.kf()
+        specs = ops[0][1]["members"]
+
+        def build():
+            sims = [FitSim(sp) for sp in specs]
+            return sims, K.MultiFit([sm.fit for sm in sims])
+
+        (msims, main), (tsims, twin) = build(), build()
+        names = list(twin.parameter_names)
+
+        def do_fault(f):
+            c = f["call"]
+            if c == "set":
+                return main.set_parameter_values(**{f["name"]: 1.0})
+            if c == "set_multi":
+                if f["valid"] not in names:
+                    raise NotApplicable("name")
+                d = {f["valid"]: float(main.parameter_values[names.index(f["valid"])]) + 0.75}
+                d[f["name"]] = 1.0
+                return main.set_parameter_values(**d)
+            if c == "set_all":
+                return main.set_all_parameter_values([1.0] * f["n"])
+            if c == "fix":
+                return main.fix_parameter(f["name"])
+            if c == "fix_value":
+                return main.fix_parameter(f["name"], 1.0)
+            if c == "limit":
+                return main.limit_parameter(f["name"], 0.0, 1.0)
+            if c == "constraint":
+                return main.add_parameter_constraint(f["name"], 1.0, 0.1)
+            if c == "disable_error":
+                return main.disable_error(f["name"])
+            if c == "add_error":
+                return main.add_error(f["err"], fits=f["fits"], axis=f["axis"], correlation=f.get("corr", 0.0))
+            if c == "add_matrix_error":
+                return main.add_matrix_error(np.array(f["mat"]), "cov", fits=f["fits"], axis=f["axis"])
+            raise NotApplicable(c)
+
+        def read(mf, sims, what, i):
+            try:
+                if what == "cost":
+                    return ("ok", float(mf.cost_function_value))
+                if what == "ndf":
+                    return ("ok", mf.ndf)
+                if what == "gof":
+                    g = mf.goodness_of_fit
+                    return ("ok", None if g is None else float(g))
+                if what == "pvals":
+                    return ("ok", [float(v) for v in mf.parameter_values])
+                if what == "member_cost":
+                    return ("ok", float(sims[i % len(sims)].fit.cost_function_value))
+                if what == "member_pvals":
+                    return ("ok", [float(v) for v in sims[i % len(sims)].fit.parameter_values])
+            except Exception as e:  # noqa
+                return ("exc", type(e).__name__)
+            raise NotApplicable(what)
+
+        def apply(mf, sims, op):
+            k, a = op[0], op[1]
+            if k == "add_error":
+                if a["name"] in sims[a["fits"]].names:
+                    raise NotApplicable("dup")
+                mf.add_error(a["err"], fits=a["fits"], axis=a["axis"], name=a["name"], correlation=a["corr"])
+                sims[a["fits"]].names.append(a["name"])
+            elif k == "add_shared":
+                if len(sims[0].ref.d) != len(sims[1].ref.d) or a["name"] in sims[0].names:
+                    raise NotApplicable("size")
+                mf.add_error(a["err"], fits=[0, 1], axis=(None if all(sm.spec["type"] == "indexed" for sm in sims) else "y"), name=a["name"], correlation=a["corr"])
+                for sm in sims:
+                    sm.names.append(a["name"])
+            elif k == "set":
+                if any(nm not in names for nm in a):
+                    raise NotApplicable("name")
+                mf.set_parameter_values(**a)
+            elif k == "fix":
+                if a[0] not in names:
+                    raise NotApplicable("name")
+                mf.fix_parameter(a[0], a[1])
+            elif k == "release":
+                if a not in mf._fitter.fixed_parameters:
+                    raise NotApplicable("not fixed")
+                mf.release_parameter(a)
+            elif k == "constraint":
+                if a["par"] not in names:
+                    raise NotApplicable("name")
+                mf.add_parameter_constraint(a["par"], a["value"], a["unc"])
+            else:
+                raise NotApplicable(k)
+
+        after_fault = False
+        last_fault = None
+        for step, op in enumerate(ops[1:], start=1):
+            k = op[0]
+            if k == "fault":
+                if self.reject(res, op[1], op[2], lambda: do_fault(op[2]), step):
+                    after_fault = True
+                    last_fault = op
+                continue
+            if k == "read":
+                a = read(main, msims, op[1], op[2])
+                b = read(twin, tsims, op[1], op[2])
+                if after_fault:
+                    res.bump("reads_after_fault")
+                    self.cmp(a, b, "multi." + op[1], step, last_fault, 1e-12, False)
+                log.add(op, a[0])
+                continue
+            try:
+                apply(twin, tsims, op)
+            except NotApplicable:
+                continue
+            apply(main, msims, op)
+        res.n_ops = len(ops)
 
     # -- fit host
     def run_fit(self, ops, world, res, log):
